@@ -13,7 +13,7 @@ use serde_json::json;
 use crate::drive::{apply_step, machines_json, trigger, FwR};
 use crate::gen::{fmt_events, gen_machine, MCfg, ALL_EVENTS};
 use crate::props::c05::{add_stats, classify};
-use crate::refsem::RefFw;
+use crate::refsem::{only_transition_draws, DrawOracle, RefFw};
 use crate::util::{xo, Pick, SharedChoice, VClock, Xo};
 use crate::{CaseCx, Out, Prop, Tier};
 
@@ -45,6 +45,7 @@ struct Search<'a, 'b> {
     states: &'b mut HashSet<u64>,
     transitions: u64,
     draws_max: usize,
+    only_transition_draws: bool,
     _m: std::marker::PhantomData<&'a ()>,
 }
 
@@ -78,8 +79,19 @@ impl<'a, 'b> Search<'a, 'b> {
                     n2.now = now;
                     let snap = n2.fw.verif_snapshot();
                     self.path.push(format!("t{:+} [{}] draws={:?}", step, fmt_events(&events), script.iter().map(|c| c >> 30).collect::<Vec<_>>()));
+                    if self.only_transition_draws {
+                        n2.reference.oracle = Some(DrawOracle::Words { words: script.clone(), pos: 0 });
+                    }
                     if let Err(m) = n2.reference.call(&events, now, n2.fw.verif_log(), &acts, &snap) {
                         return Err(Some((format!("C05/conformance/{}", classify(&m)), m)));
+                    }
+                    if let Some(DrawOracle::Words { pos, .. }) = &n2.reference.oracle {
+                        if *pos != script.len() {
+                            return Err(Some((
+                                "C05/conformance/draw-count".into(),
+                                format!("the call consumed {} random draws, the semantics prescribes {pos} (one per delivery to a state that declares transitions for the event)", script.len()),
+                            )));
+                        }
                     }
                     self.transitions += 1;
                     if self.states.len() < 3_000_000 {
@@ -261,6 +273,7 @@ impl Prop for C05x {
                 states: &mut self.states,
                 transitions: 0,
                 draws_max: 0,
+                only_transition_draws: only_transition_draws(&machines),
                 _m: std::marker::PhantomData,
             };
             let res = s.explore(&root, d);
